@@ -130,6 +130,15 @@ class Xunitary(Compiler):
         if A != []:
             raise CircuitError("There can be no operations before the S2gates.")
 
+        for cmd in B:
+            if not isinstance(cmd.op, ops.S2gate):
+                # group_operations could not move this operation out of the S2gate block
+                raise CircuitError(
+                    "The operation {} cannot be placed between the S2gates.".format(
+                        cmd.op.__class__.__name__
+                    )
+                )
+
         regrefs = set()
 
         if B:
